@@ -51,7 +51,7 @@ class AttackPattern(_DomainObject):
         ('kill_chain_phases', ListProperty(KillChainPhase)),
         ('revoked', BooleanProperty(default=lambda: False)),
         ('labels', ListProperty(StringProperty)),
-        ('confidence', IntegerProperty()),
+        ('confidence', IntegerProperty(min=0, max=100)),
         ('lang', StringProperty()),
         ('external_references', ListProperty(ExternalReference)),
         ('object_marking_refs', ListProperty(ReferenceProperty(valid_types='marking-definition', spec_version='2.1'))),
@@ -81,7 +81,7 @@ class Campaign(_DomainObject):
         ('objective', StringProperty()),
         ('revoked', BooleanProperty(default=lambda: False)),
         ('labels', ListProperty(StringProperty)),
-        ('confidence', IntegerProperty()),
+        ('confidence', IntegerProperty(min=0, max=100)),
         ('lang', StringProperty()),
         ('external_references', ListProperty(ExternalReference)),
         ('object_marking_refs', ListProperty(ReferenceProperty(valid_types='marking-definition', spec_version='2.1'))),
@@ -117,7 +117,7 @@ class CourseOfAction(_DomainObject):
         ('description', StringProperty()),
         ('revoked', BooleanProperty(default=lambda: False)),
         ('labels', ListProperty(StringProperty)),
-        ('confidence', IntegerProperty()),
+        ('confidence', IntegerProperty(min=0, max=100)),
         ('lang', StringProperty()),
         ('external_references', ListProperty(ExternalReference)),
         ('object_marking_refs', ListProperty(ReferenceProperty(valid_types='marking-definition', spec_version='2.1'))),
@@ -145,7 +145,7 @@ class Grouping(_DomainObject):
         ('object_refs', ListProperty(ReferenceProperty(valid_types=["SCO", "SDO", "SRO"], spec_version='2.1'), required=True)),
         ('revoked', BooleanProperty(default=lambda: False)),
         ('labels', ListProperty(StringProperty)),
-        ('confidence', IntegerProperty()),
+        ('confidence', IntegerProperty(min=0, max=100)),
         ('lang', StringProperty()),
         ('external_references', ListProperty(ExternalReference)),
         ('object_marking_refs', ListProperty(ReferenceProperty(valid_types='marking-definition', spec_version='2.1'))),
@@ -175,7 +175,7 @@ class Identity(_DomainObject):
         ('contact_information', StringProperty()),
         ('revoked', BooleanProperty(default=lambda: False)),
         ('labels', ListProperty(StringProperty)),
-        ('confidence', IntegerProperty()),
+        ('confidence', IntegerProperty(min=0, max=100)),
         ('lang', StringProperty()),
         ('external_references', ListProperty(ExternalReference)),
         ('object_marking_refs', ListProperty(ReferenceProperty(valid_types='marking-definition', spec_version='2.1'))),
@@ -202,7 +202,7 @@ class Incident(_DomainObject):
         ('kill_chain_phases', ListProperty(KillChainPhase)),
         ('revoked', BooleanProperty(default=lambda: False)),
         ('labels', ListProperty(StringProperty)),
-        ('confidence', IntegerProperty()),
+        ('confidence', IntegerProperty(min=0, max=100)),
         ('lang', StringProperty()),
         ('external_references', ListProperty(ExternalReference)),
         ('object_marking_refs', ListProperty(ReferenceProperty(valid_types='marking-definition', spec_version='2.1'))),
@@ -235,7 +235,7 @@ class Indicator(_DomainObject):
         ('kill_chain_phases', ListProperty(KillChainPhase)),
         ('revoked', BooleanProperty(default=lambda: False)),
         ('labels', ListProperty(StringProperty)),
-        ('confidence', IntegerProperty()),
+        ('confidence', IntegerProperty(min=0, max=100)),
         ('lang', StringProperty()),
         ('external_references', ListProperty(ExternalReference)),
         ('object_marking_refs', ListProperty(ReferenceProperty(valid_types='marking-definition', spec_version='2.1'))),
@@ -293,7 +293,7 @@ class Infrastructure(_DomainObject):
         ('last_seen', TimestampProperty()),
         ('revoked', BooleanProperty(default=lambda: False)),
         ('labels', ListProperty(StringProperty)),
-        ('confidence', IntegerProperty()),
+        ('confidence', IntegerProperty(min=0, max=100)),
         ('lang', StringProperty()),
         ('external_references', ListProperty(ExternalReference)),
         ('object_marking_refs', ListProperty(ReferenceProperty(valid_types='marking-definition', spec_version='2.1'))),
@@ -336,7 +336,7 @@ class IntrusionSet(_DomainObject):
         ('secondary_motivations', ListProperty(OpenVocabProperty(ATTACK_MOTIVATION))),
         ('revoked', BooleanProperty(default=lambda: False)),
         ('labels', ListProperty(StringProperty)),
-        ('confidence', IntegerProperty()),
+        ('confidence', IntegerProperty(min=0, max=100)),
         ('lang', StringProperty()),
         ('external_references', ListProperty(ExternalReference)),
         ('object_marking_refs', ListProperty(ReferenceProperty(valid_types='marking-definition', spec_version='2.1'))),
@@ -381,7 +381,7 @@ class Location(_DomainObject):
         ('postal_code', StringProperty()),
         ('revoked', BooleanProperty(default=lambda: False)),
         ('labels', ListProperty(StringProperty)),
-        ('confidence', IntegerProperty()),
+        ('confidence', IntegerProperty(min=0, max=100)),
         ('lang', StringProperty()),
         ('external_references', ListProperty(ExternalReference)),
         ('object_marking_refs', ListProperty(ReferenceProperty(valid_types='marking-definition', spec_version='2.1'))),
@@ -491,7 +491,7 @@ class Malware(_DomainObject):
         ('sample_refs', ListProperty(ReferenceProperty(valid_types=['artifact', 'file'], spec_version='2.1'))),
         ('revoked', BooleanProperty(default=lambda: False)),
         ('labels', ListProperty(StringProperty)),
-        ('confidence', IntegerProperty()),
+        ('confidence', IntegerProperty(min=0, max=100)),
         ('lang', StringProperty()),
         ('external_references', ListProperty(ExternalReference)),
         ('object_marking_refs', ListProperty(ReferenceProperty(valid_types='marking-definition', spec_version='2.1'))),
@@ -547,7 +547,7 @@ class MalwareAnalysis(_DomainObject):
         ('sample_ref', ReferenceProperty(valid_types="SCO", spec_version='2.1')),
         ('revoked', BooleanProperty(default=lambda: False)),
         ('labels', ListProperty(StringProperty)),
-        ('confidence', IntegerProperty()),
+        ('confidence', IntegerProperty(min=0, max=100)),
         ('lang', StringProperty()),
         ('external_references', ListProperty(ExternalReference)),
         ('object_marking_refs', ListProperty(ReferenceProperty(valid_types='marking-definition', spec_version='2.1'))),
@@ -580,7 +580,7 @@ class Note(_DomainObject):
         ('object_refs', ListProperty(ReferenceProperty(valid_types=["SCO", "SDO", "SRO"], spec_version='2.1'), required=True)),
         ('revoked', BooleanProperty(default=lambda: False)),
         ('labels', ListProperty(StringProperty)),
-        ('confidence', IntegerProperty()),
+        ('confidence', IntegerProperty(min=0, max=100)),
         ('lang', StringProperty()),
         ('external_references', ListProperty(ExternalReference)),
         ('object_marking_refs', ListProperty(ReferenceProperty(valid_types='marking-definition', spec_version='2.1'))),
@@ -609,7 +609,7 @@ class ObservedData(_DomainObject):
         ('object_refs', ListProperty(ReferenceProperty(valid_types=["SCO", "SRO"], spec_version='2.1'))),
         ('revoked', BooleanProperty(default=lambda: False)),
         ('labels', ListProperty(StringProperty)),
-        ('confidence', IntegerProperty()),
+        ('confidence', IntegerProperty(min=0, max=100)),
         ('lang', StringProperty()),
         ('external_references', ListProperty(ExternalReference)),
         ('object_marking_refs', ListProperty(ReferenceProperty(valid_types='marking-definition', spec_version='2.1'))),
@@ -662,7 +662,7 @@ class Opinion(_DomainObject):
         ('object_refs', ListProperty(ReferenceProperty(valid_types=["SCO", "SDO", "SRO"], spec_version='2.1'), required=True)),
         ('revoked', BooleanProperty(default=lambda: False)),
         ('labels', ListProperty(StringProperty)),
-        ('confidence', IntegerProperty()),
+        ('confidence', IntegerProperty(min=0, max=100)),
         ('lang', StringProperty()),
         ('external_references', ListProperty(ExternalReference)),
         ('object_marking_refs', ListProperty(ReferenceProperty(valid_types='marking-definition', spec_version='2.1'))),
@@ -691,7 +691,7 @@ class Report(_DomainObject):
         ('object_refs', ListProperty(ReferenceProperty(valid_types=["SCO", "SDO", "SRO"], spec_version='2.1'), required=True)),
         ('revoked', BooleanProperty(default=lambda: False)),
         ('labels', ListProperty(StringProperty)),
-        ('confidence', IntegerProperty()),
+        ('confidence', IntegerProperty(min=0, max=100)),
         ('lang', StringProperty()),
         ('external_references', ListProperty(ExternalReference)),
         ('object_marking_refs', ListProperty(ReferenceProperty(valid_types='marking-definition', spec_version='2.1'))),
@@ -728,7 +728,7 @@ class ThreatActor(_DomainObject):
         ('personal_motivations', ListProperty(OpenVocabProperty(ATTACK_MOTIVATION))),
         ('revoked', BooleanProperty(default=lambda: False)),
         ('labels', ListProperty(StringProperty)),
-        ('confidence', IntegerProperty()),
+        ('confidence', IntegerProperty(min=0, max=100)),
         ('lang', StringProperty()),
         ('external_references', ListProperty(ExternalReference)),
         ('object_marking_refs', ListProperty(ReferenceProperty(valid_types='marking-definition', spec_version='2.1'))),
@@ -768,7 +768,7 @@ class Tool(_DomainObject):
         ('tool_version', StringProperty()),
         ('revoked', BooleanProperty(default=lambda: False)),
         ('labels', ListProperty(StringProperty)),
-        ('confidence', IntegerProperty()),
+        ('confidence', IntegerProperty(min=0, max=100)),
         ('lang', StringProperty()),
         ('external_references', ListProperty(ExternalReference)),
         ('object_marking_refs', ListProperty(ReferenceProperty(valid_types='marking-definition', spec_version='2.1'))),
@@ -794,7 +794,7 @@ class Vulnerability(_DomainObject):
         ('description', StringProperty()),
         ('revoked', BooleanProperty(default=lambda: False)),
         ('labels', ListProperty(StringProperty)),
-        ('confidence', IntegerProperty()),
+        ('confidence', IntegerProperty(min=0, max=100)),
         ('lang', StringProperty()),
         ('external_references', ListProperty(ExternalReference)),
         ('object_marking_refs', ListProperty(ReferenceProperty(valid_types='marking-definition', spec_version='2.1'))),
@@ -847,7 +847,7 @@ def CustomObject(type='x-custom-type', properties=None, extension_name=None, is_
             + [
                 ('revoked', BooleanProperty(default=lambda: False)),
                 ('labels', ListProperty(StringProperty)),
-                ('confidence', IntegerProperty()),
+                ('confidence', IntegerProperty(min=0, max=100)),
                 ('lang', StringProperty()),
                 ('external_references', ListProperty(ExternalReference)),
                 ('object_marking_refs', ListProperty(ReferenceProperty(valid_types='marking-definition', spec_version='2.1'))),
